@@ -1517,6 +1517,7 @@ ND_NDIM = z3.Function('ndim', ARROBJ, INT)
 ND_LEN0 = z3.Function('shape0', ARROBJ, INT)
 ND_SIZE = z3.Function('size', ARROBJ, INT)
 ND_DTYPE = z3.Function('dtype', ARROBJ, INT)
+ND_OWNED = z3.Function('owns_its_memory', ARROBJ, BOOL)      # ghost: the array shares its buffer with no array that existed before it was made
 
 
 class SDType(Sym):
@@ -1545,9 +1546,11 @@ class SND(Sym):
         return ND_LEN0(self.obj)
 
 
-def fresh_nd(interp, name, *, ndim=None, len0=None, dtype=None, size=None) -> SND:
+def fresh_nd(interp, name, *, ndim=None, len0=None, dtype=None, size=None, owned=True) -> SND:
     ctx = interp.ctx
     o = ctx.fresh(name, ARROBJ)
+    if owned:
+        ctx.assume(ND_OWNED(o))
     ctx.assume(z3.And(ND_NDIM(o) >= 1, ND_LEN0(o) >= 0, ND_SIZE(o) >= 0, z3.Implies(ND_NDIM(o) == 1, ND_SIZE(o) == ND_LEN0(o))))
     if ndim is not None:
         ctx.assume(ND_NDIM(o) == ndim)
@@ -1611,7 +1614,7 @@ def getattr(interp, obj, name, node=None):     # noqa: F811 - extends the attrib
             return simplify_value(SInt(ND_SIZE(obj.obj)))
         if name == 'dtype':
             return SDType(ND_DTYPE(obj.obj))
-        if name in ('flatten', 'astype', 'copy'):
+        if name in ('flatten', 'astype', 'copy', 'ravel', 'reshape', 'view', 'squeeze'):
             return SymMethod(obj, name)
     return _orig_getattr(interp, obj, name, node)
 
@@ -1646,7 +1649,8 @@ def setitem(interp, obj, idx, v, node=None):   # noqa: F811
             interp.raise_(ValueError, 'inplace')
         k = ctx.fresh('assign', INT)
         new = INPLACE(obj.obj, k)
-        ctx.assume(z3.And(ND_NDIM(new) == ND_NDIM(obj.obj), ND_LEN0(new) == ND_LEN0(obj.obj), ND_DTYPE(new) == ND_DTYPE(obj.obj), ND_SIZE(new) == ND_SIZE(obj.obj)))
+        ctx.assume(z3.And(ND_NDIM(new) == ND_NDIM(obj.obj), ND_LEN0(new) == ND_LEN0(obj.obj), ND_DTYPE(new) == ND_DTYPE(obj.obj), ND_SIZE(new) == ND_SIZE(obj.obj),
+                          ND_OWNED(new) == ND_OWNED(obj.obj)))
         owner = builtins.getattr(obj, 'owner', None)
         obj.obj = new
         if owner is not None:
@@ -1675,8 +1679,15 @@ def call_method(interp, recv, name, args, kwargs, node=None):   # noqa: F811
             if interp.ctx.choose(2, 'astype-raises') == 1:
                 interp.raise_(ValueError, 'astype')
             dt = args[0] if args else kwargs.get('dtype')
-            r = fresh_nd(interp, 'astype', ndim=ND_NDIM(recv.obj), len0=ND_LEN0(recv.obj), size=ND_SIZE(recv.obj), dtype=dt.e if isinstance(dt, SDType) else None)
+            cp = kwargs.get('copy', True)
+            # astype(..., copy=False) may hand back the array itself (or a view) when no conversion is needed: no ownership promised
+            r = fresh_nd(interp, 'astype', ndim=ND_NDIM(recv.obj), len0=ND_LEN0(recv.obj), size=ND_SIZE(recv.obj), dtype=dt.e if isinstance(dt, SDType) else None,
+                         owned=(cp is True))
             return r
+        if name in ('ravel', 'view', 'squeeze') or (name == 'reshape'):
+            interp.ctx.use(A('numpy.views.nd', 'ravel()/reshape()/view()/squeeze() return an array with the same elements and dtype that may share memory with the original'))
+            one_d = name == 'ravel' or (name == 'reshape' and len(args) == 1 and not is_sym(args[0]) and args[0] == -1)
+            return fresh_nd(interp, name, ndim=1 if one_d else None, len0=ND_SIZE(recv.obj) if one_d else None, size=ND_SIZE(recv.obj), dtype=ND_DTYPE(recv.obj), owned=False)
         if name == 'copy':
             return fresh_nd(interp, 'copy', ndim=ND_NDIM(recv.obj), len0=ND_LEN0(recv.obj), size=ND_SIZE(recv.obj), dtype=ND_DTYPE(recv.obj))
     return _orig_call_method(interp, recv, name, args, kwargs, node)
